@@ -827,6 +827,13 @@ func genCall(r *common.Rng, f *fspec, maxLen int) *call {
 		switch x := r.Intn(100); {
 		case x < 70 && n2 > 0:
 			lo := r.Intn(n2)
+			if r.Chance(20) { // the match at the very start of the searched range (the last offset :from-end tries)
+				lo = 0
+				if r.Chance(40) {
+					lo = r.Intn(n2)
+					c.start2 = lo
+				}
+			}
 			hi := lo + r.Intn(min(3, n2-lo)+1)
 			c.s1 = append([]int{}, c.s2[lo:hi]...)
 			if len(c.s1) > 0 && r.Chance(20) {
@@ -858,7 +865,14 @@ func genCall(r *common.Rng, f *fspec, maxLen int) *call {
 		} else if r.Chance(15) {
 			c.start, c.end = genBounds(r, len(c.s1), 60, 55, 10)
 		}
-		c.start2, c.end2 = genBounds(r, n2, 45, 40, 0)
+		if c.start2 >= 0 { // pattern cut at start2: keep that start, draw the end behind it
+			c.end2 = -1
+			if r.Chance(40) {
+				c.end2 = c.start2 + r.Intn(n2-c.start2+1)
+			}
+		} else {
+			c.start2, c.end2 = genBounds(r, n2, 45, 40, 0)
+		}
 		if r.Chance(35) {
 			c.key = common.Pick(r, keyNames)
 		}
